@@ -36,7 +36,8 @@ EXPLANATION = (
     " R6 also: a vector that unit_initialization copies into the other one is final when copied."
     " (R12) the closure passed to the one-sided Newton iteration as derivative is d/dx of the closure passed as function (power cone; generalised power cone term by term over the fold)."
     " (R13) third-order correction of the exponential and power cone: higher_correction is replayed with the state of eta, the scratch matrix and every local tracked statement by statement; eta is a bilinear form in (u, v) whose 27 coefficients equal 1/2 d^3 f*/dz_i dz_j dz_k exactly."
-    " (R14) the sign tests that decide membership of the power and exponential cone evaluate the defining expressions of K and K* (the dual power cone test is the same power product as the dual barrier).")
+    " (R14) the sign tests that decide membership of the power and exponential cone evaluate the defining expressions of K and K* (the dual power cone test is the same power product as the dual barrier)."
+    " (R15) primal-dual scaling: the stored Hs is s s'/<s,z> + ds ds'/<ds,dz> + t a a' with ds = s + mu st, dz = z + mu zt, a = normalised z x zt, and - given the Euler identities of R4 - <ds,z> = <s,dz> = <a,z> = <a,dz> = 0, so Hs z = s and Hs zt = st identically (positive definiteness not decided).")
 ASSUMPTIONS = ['rustc MIR construction and trait resolution are correct',
                'R4: identities over the reals; log(a b) = log a + log b and omega + log omega = x for omega = wright_omega(x)']
 
@@ -1389,6 +1390,178 @@ def membership_definitions(rep, F, E, tag):
     R.guard(body)
 
 
+# ---------------------------------------------------------------------------
+# primal-dual scaling: secant equations  Hs z = s,  Hs (z + mu zt) = s + mu st
+# ---------------------------------------------------------------------------
+
+def _txt_split(t):
+    i = t.find('(')
+    if i <= 0 or not t.endswith(')'):
+        return None
+    return t[:i], split_args(t)
+
+
+def _txt_eval(t, scal, vecs):
+    """canonical text -> RatF over atoms; scal: 'var:name' -> RatF, vecs: base text -> [RatF]*3"""
+    t = t.strip()
+    if t in scal:
+        return scal[t]
+    m = _re.fullmatch(r'(.+)\[(\d)_usize\]', t)
+    if m and m.group(1) in vecs:
+        return vecs[m.group(1)][int(m.group(2))]
+    m = _re.fullmatch(r'(-?\d+(?:\.\d+)?)(f64|f32)?', t)
+    if m:
+        return RatF(P_const(Fraction(m.group(1))))
+    if t == 'one()':
+        return RatF(P_const(1))
+    if t == 'zero()':
+        return RatF({})
+    sp = _txt_split(t)
+    if sp is None:
+        raise _NoDerivative('cannot evaluate %s' % t[:60])
+    nm, args = sp
+    nm = last_seg(nm)
+    if nm == 'dot' and len(args) == 2:
+        a, b = [_re.sub(r'^index(_mut)?\((.*), RangeFull::RangeFull\)$', r'\2', x) for x in args]
+        if a in vecs and b in vecs:
+            tot = RatF({})
+            for x, y in zip(vecs[a], vecs[b]):
+                tot = tot + x * y
+            return tot
+        raise _NoDerivative('dot of unknown vectors %s, %s' % (a[:30], b[:30]))
+    vals = [_txt_eval(a, scal, vecs) for a in args]
+    if nm == 'add':
+        return vals[0] + vals[1]
+    if nm == 'sub':
+        return vals[0] + vals[1] * RatF(P_const(-1))
+    if nm == 'mul':
+        return vals[0] * vals[1]
+    if nm == 'div':
+        return vals[0] * vals[1].pow(-1)
+    if nm == 'neg':
+        return vals[0] * RatF(P_const(-1))
+    if nm in ('as_T', 'clone'):
+        return vals[0]
+    raise _NoDerivative('cannot evaluate %s' % t[:60])
+
+
+def primal_dual_secant(rep, F, E, tag):
+    """"the primal-dual scaling matrix ... maps z to s and the shadow dual point to the shadow slack": the statements of
+    use_primal_dual_scaling are read with every named local kept symbolic, which yields the templates delta_s[i] = s[i] + mu st[i],
+    delta_z[i] = z[i] + mu zt[i], axis = z x zt (then normalised) and Hs[(i,j)] = s_i s_j / <s,z> + ds_i ds_j / <ds,dz> + t a_i a_j.  Instantiated over
+    free symbols, (a) the stored entries are exactly that sum of three dyads, so Hs x = s <s,x>/<s,z> + ds <ds,x>/<ds,dz> + t a <a,x>; (b) with the two Euler
+    identities <st, z> = -3 and <s, zt> = -3 (decided by R4) the six scalars <s,z>/dot_sz - 1, <ds,z>, <a,z>, <s,dz>, <ds,dz>/dot_dsz - 1, <a,dz> vanish
+    identically - hence Hs z = s and Hs dz = ds, and with mu != 0 Hs zt = st.  (Positive definiteness - t > 0 and the guards being sufficient - is not decided.)"""
+    R = rep.rule('C14.R15', 'primal-dual scaling satisfies the secant equations Hs z = s and Hs (z + mu zt) = s + mu st identically, given the Euler identities')
+
+    def body():
+        fs = F.find(name='use_primal_dual_scaling')
+        fs = [x for x in fs if x.blocks and len(x.blocks) > 5]
+        if len(fs) != 1:
+            raise AnchorError('use_primal_dual_scaling matched %d functions' % len(fs))
+        f0 = fs[0]
+        g = _copy.copy(f0)
+        g._symcache = {}
+        named = set()
+        for l in list(f0.defs.keys()):
+            try:
+                nm_ = f0.local_name(l)
+            except Exception:
+                nm_ = None
+            if nm_ and not f0.is_param(l):
+                named.add(l)
+        g.partial = set(f0.partial) | named
+        stores, assigns = {}, {}
+        for val, ret, ev, tr in Walker(g, cut_loops=True, local_stores=True).leaves(limit=400000):
+            for e in ev:
+                if e[0] == 'store':
+                    stores.setdefault(str(e[1]), set()).add(str(e[2]))
+                elif e[0] == 'assign' and e[1]:
+                    v = None
+                    if isinstance(e[4], dict):
+                        v = canon(g.sym_rvalue(e[4]['rv']))
+                    elif e[2] is not None:
+                        v = str(e[2])
+                    if v is not None:
+                        assigns.setdefault(e[1], set()).add(v)
+        one = lambda d, k: (list(d[k])[0] if k in d and len(d[k]) == 1 else None)
+        want_tmpl = {
+            'var:δs[var:i]': {'add(arg2[var:i], mul(var:μ, var:st[var:i]))', 'add(mul(var:μ, var:st[var:i]), arg2[var:i])'},
+            'var:δz[var:i]': {'add(arg3[var:i], mul(var:μ, var:zt[var:i]))', 'add(mul(var:μ, var:zt[var:i]), arg3[var:i])'},
+        }
+        for k, w in want_tmpl.items():
+            R.check(one(stores, k) in w, 'template|%s%s' % (k[4:6], tag), 'use_primal_dual_scaling defines %s as %s, expected %s' % (k, stores.get(k), sorted(w)[0]), f0.loc())
+        mu = assigns.get('μ', set())
+        dsz = assigns.get('dot_sz', set())
+        ddz = assigns.get('dot_δsz', set())
+        R.check(dsz == {'dot(arg2, arg3)'} or dsz == {'dot(arg3, arg2)'}, 'dot_sz' + tag, 'dot_sz is %s' % dsz, f0.loc())
+        R.check(len(mu) == 1 and list(mu)[0].replace(' ', '') in ('div(var:dot_sz,var:three)',), 'mu' + tag, 'mu is %s, expected <s,z>/3' % mu, f0.loc())
+        R.check(len(ddz) == 1 and _re.fullmatch(r'dot\(index(_mut)?\(var:δ[sz], RangeFull::RangeFull\), index(_mut)?\(var:δ[sz], RangeFull::RangeFull\)\)', list(ddz)[0]) is not None and 'δs' in list(ddz)[0] and 'δz' in list(ddz)[0],
+                'dot_dsz' + tag, 'dot_δsz is %s, expected <δs, δz>' % ddz, f0.loc())
+        zt = assigns.get('zt', set())
+        R.check(zt == {'gradient_primal(self, arg2)'}, 'zt' + tag, 'zt is %s, expected gradient_primal(s)' % zt, f0.loc())
+        hs = [v for k, vs in stores.items() if k == 'index_mut(var:Hs, tuple(var:i, var:j))' for v in vs]
+        if not R.check(len(hs) == 1, 'hs-template' + tag, 'final store into Hs[(i,j)]: %s' % hs, f0.loc()):
+            return
+        ax = [one(stores, 'var:axis_z[%d_usize]' % i) for i in range(3)]
+        if not R.check(all(x is not None for x in ax), 'axis-template' + tag, 'axis_z components: %s' % ax, f0.loc()):
+            return
+        norm_calls = [c for c in f0.calls if c.callee.name == 'normalize']
+        R.check(len(norm_calls) == 1, 'axis-normalised' + tag, '%d normalize() calls' % len(norm_calls), f0.loc())
+        try:
+            A = lambda n_: RatF(P_atom(n_))
+            S = [A('s%d' % i) for i in range(3)]
+            Z = [A('z%d' % i) for i in range(3)]
+            ST = [A('st0'), A('st1'), None]
+            ZT = [A('zt0'), A('zt1'), None]
+            m3 = RatF(P_const(-3))
+            neg1 = RatF(P_const(-1))
+            # Euler identities (R4): <st, z> = -3 and <s, zt> = -3
+            ST[2] = (m3 + (ST[0] * Z[0] + ST[1] * Z[1]) * neg1) * Z[2].pow(-1)
+            ZT[2] = (m3 + (S[0] * ZT[0] + S[1] * ZT[1]) * neg1) * S[2].pow(-1)
+            vecs = {'arg2': S, 'arg3': Z, 'var:st': ST, 'var:zt': ZT}
+            scal = {'var:three': RatF(P_const(3)), 'var:t': A('t')}
+            scal['var:dot_sz'] = _txt_eval(list(dsz)[0], scal, vecs)
+            scal['var:μ'] = _txt_eval(list(mu)[0], scal, vecs)
+            for nm_, key in (('var:δs', 'var:δs[var:i]'), ('var:δz', 'var:δz[var:i]')):
+                tmpl = one(stores, key)
+                vecs[nm_] = [_txt_eval(tmpl.replace('var:i', '%d_usize' % i), scal, vecs) for i in range(3)]
+            scal['var:dot_δsz'] = _txt_eval(_re.sub(r'index(_mut)?\((var:δ[sz]), RangeFull::RangeFull\)', r'\2', list(ddz)[0]), scal, vecs)
+            ninv = A('ninv')
+            vecs['var:axis_z'] = [_txt_eval(ax[i], scal, vecs) * ninv for i in range(3)]
+            # (a) the stored matrix is the sum of three dyads  s s'/<s,z> + ds ds'/<ds,dz> + t a a'  (template, free symbols)
+            fv = {'arg2': [A('S%d' % i) for i in range(3)], 'var:δs': [A('D%d' % i) for i in range(3)], 'var:axis_z': [A('X%d' % i) for i in range(3)]}
+            fs_ = {'var:dot_sz': A('dsz'), 'var:dot_δsz': A('ddz'), 'var:t': A('t')}
+            n = 0
+            for i in range(3):
+                for j in range(i, 3):
+                    got = _txt_eval(hs[0].replace('var:i', '%d_usize' % i).replace('var:j', '%d_usize' % j), fs_, fv)
+                    want = fv['arg2'][i] * fv['arg2'][j] * A('dsz').pow(-1) + fv['var:δs'][i] * fv['var:δs'][j] * A('ddz').pow(-1) + A('t') * fv['var:axis_z'][i] * fv['var:axis_z'][j]
+                    n += 1
+                    R.check((got + want * neg1).is_zero(), 'three-dyads|%d%d%s' % (i, j, tag), 'Hs[(%d,%d)] is not s_i s_j/<s,z> + ds_i ds_j/<ds,dz> + t a_i a_j' % (i, j), f0.loc())
+            # (b) the scalar identities that make  Hs z = s  and  Hs dz = ds  (with (a): Hs x = s <s,x>/<s,z> + ds <ds,x>/<ds,dz> + t a <a,x>)
+            def dotv(x, y):
+                tot = RatF({})
+                for p_, q_ in zip(x, y):
+                    tot = tot + p_ * q_
+                return tot
+            DS, DZ, AX = vecs['var:δs'], vecs['var:δz'], vecs['var:axis_z']
+            one_ = RatF(P_const(1))
+            checks = [('<s,z>/dot_sz = 1', dotv(S, Z) * scal['var:dot_sz'].pow(-1) + one_ * neg1),
+                      ('<ds,z> = 0', dotv(DS, Z)), ('<a,z> = 0', dotv(AX, Z)),
+                      ('<s,dz> = 0', dotv(S, DZ)), ('<ds,dz>/dot_dsz = 1', dotv(DS, DZ) * scal['var:dot_δsz'].pow(-1) + one_ * neg1),
+                      ('<a,dz> = 0', dotv(AX, DZ))]
+            for nm_, r in checks:
+                n += 1
+                R.check(r.is_zero(), 'secant|%s%s' % (nm_.replace(' ', ''), tag),
+                        'the identity %s does not hold for the quantities use_primal_dual_scaling computes (numerator %s): Hs does not map z to s / the shadow point to the shadow slack' % (nm_, P_fmt(r.n)[:120]), f0.loc())
+            R.check(n == 12, 'count' + tag, '%d identities decided' % n)
+        except _NoDerivative as ex:
+            R.bad('evaluable' + tag, 'templates of use_primal_dual_scaling could not be evaluated (%s)' % ex, f0.loc())
+
+    R.guard(body)
+
+
 def run(ctx, rep, tier):
     for cfg in (CONFIGS_THOROUGH if tier == 'thorough' else CONFIGS):
         F = ctx.facts(cfg)
@@ -1407,6 +1580,8 @@ def run(ctx, rep, tier):
         barrier_derivatives(rep, F, E, tag)
         newton_derivative(rep, F, E, tag)
         membership_definitions(rep, F, E, tag)
+        if cfg == 'default':
+            primal_dual_secant(rep, F, E, tag)
         if cfg == 'default':
             third_order_correction(rep, F, E, tag)   # ~30 s: once, the cone code is the same in every configuration
         R6 = rep.rule('C14.R6', 'unit initialisation overwrites both vectors of every cone wholly (the documented start point is reached on every solve, not only the first)')
